@@ -197,9 +197,12 @@ class LiftProp(Prop):
     exhaustive_small = False
 
     def gen_chains(self, rng):
-        if rng.random() < self.big_prob:
+        r = rng.random()
+        if r < self.big_prob:
             return ch.gen_big_file(rng)
-        return ch.gen_file(rng, zero_prob=self.zero_prob)
+        if r < self.big_prob + 0.03:
+            return ch.gen_many(rng)
+        return ch.gen_file(rng, zero_prob=self.zero_prob, odd_names=True)
 
     def cases(self, rng, tier):
         for _ in range(self.n_files[tier]):
@@ -804,11 +807,11 @@ def gen_step_case(rng):
         for k in range(n):
             big = rng.random() < 0.12
             s = rng.choice([U64, U64 - 1, 2 ** 63]) if big else rng.randint(0, 9)
-            if k + 1 < n or rng.random() < 0.1:
+            if (k + 1 < n and rng.random() < 0.93) or (k + 1 == n and rng.random() < 0.1):
                 recs.append([s, rng.choice([0, 1, 2, 5, U64]) if rng.random() < 0.9 else rng.randint(0, 50),
                              rng.choice([0, 1, 2, 5]) if rng.random() < 0.9 else U64])
             else:
-                recs.append([s, None, None])
+                recs.append([s, None, None])      # terminating (also in the middle: the public Builder allows it)
     return {"kind": "step", "ref": ref, "qry": qry, "recs": recs}
 
 
